@@ -1415,6 +1415,8 @@ fn harden(rng: &mut Rng, thorough: bool, emit: &mut dyn FnMut(String)) {
         both(emit, FKINDS[k % 3], n, &v);
     }
     mixed_extremes(rng, thorough, emit);
+    block_boundaries(rng, thorough, emit);
+    resonant(rng, thorough, emit);
 }
 
 /// MIXED EXTREMES INSIDE ONE OBJECT (fourth seeded round): entries near the bottom of the range (subnormal, down to the
@@ -1507,5 +1509,93 @@ fn mixed_extremes(rng: &mut Rng, thorough: bool, emit: &mut dyn FnMut(String)) {
     {
         both(emit, FKINDS[k % 3], 2, &[1.0, h, e, d]);
         both(emit, FKINDS[(k + 1) % 3], 3, &[1.0, 0.0, h, 0.0, 2.0, -h, e, -e, d]);
+    }
+}
+
+/// BLOCK BOUNDARIES (sixth seeded round, category O): a blocked / panelled / unrolled factorisation, pivot search, row swap
+/// or L/U split changes behaviour exactly when the order passes 16, 32, 64, 128, 256: every order blk-1, blk, blk+1, blk+2,
+/// 2 blk+1 (up to order 66 in the quick tier, up to 258 in the thorough tier) with
+/// non-constant, NON-symmetric data: exact small-integer row-dominant matrices (lu and plu), the same with shuffled rows
+/// scaled by powers of two (plu: a row exchange at nearly every step, across blocks), real dense matrices, and exact integer
+/// products L0 U0 whose leading minor vanishes exactly AT the block boundary (lu must refuse; plu decides by its pivots).
+/// Judged by the exact reconstruction / shape / multiplier clauses of `check_factors`.
+fn block_boundaries(rng: &mut Rng, thorough: bool, emit: &mut dyn FnMut(String)) {
+    for &blk in &[16usize, 32, 64, 128, 256] {
+        for n in [blk - 1, blk, blk + 1, blk + 2, 2 * blk + 1] {
+            if n > 258 || (n > 66 && !thorough) {
+                continue;
+            }
+            let mut v = int_mat(rng, n, -2, 2);
+            for i in 0..n {
+                let off: f64 = (0..n).filter(|&j| j != i).map(|j| v[i * n + j].abs()).sum();
+                v[i * n + i] = (off + 1.0 + rng.below(3) as f64) * sgn(rng);
+            }
+            both(emit, kind_for(&v, n), n, &v);
+            let mut w = v.clone();
+            shuffle_rows(rng, n, &mut w);
+            for i in 0..n {
+                let s = p2(rng.range(-6, 6));
+                for j in 0..n {
+                    w[i * n + j] *= s;
+                }
+            }
+            emit_mat(emit, "plu", kind_for(&w, n + 1), n, n, &w);
+            let d = dense(rng, n);
+            both(emit, FKINDS[n % 3], n, &d);
+            for z in [blk.min(n - 1), blk - 1, n] {
+                let a = int_product(rng, n, z);
+                both(emit, kind_for(&a, n + z), n, &a);
+            }
+        }
+    }
+}
+
+/// RESONANT / EXACT-RELATION DATA (sixth seeded round, category P): A = (P) L0 U0 with multipliers exactly +-1, +-1/2, 0 and
+/// exact zeros in U0, so that every update a_ij - l_ik u_kj is exact and many cancel to exactly 0 (also on the diagonal: an
+/// exactly vanishing pivot); column-maximum TIES (|l| = 1) at every step; a last pivot exactly equal to EPSILON (the pivot
+/// test is `<`), one ulp below / above it; and each of these relations missed by one ulp, 2^-50, 2^-40, 2^-30 relative in
+/// one entry.
+fn resonant(rng: &mut Rng, thorough: bool, emit: &mut dyn FnMut(String)) {
+    let reps = if thorough { 10 } else { 1 };
+    for k in 0..500 * reps {
+        let n = rng.range(2, 8) as usize;
+        let mut l0 = vec![0.0; n * n];
+        let mut u0 = vec![0.0; n * n];
+        for i in 0..n {
+            for j in 0..n {
+                if i == j {
+                    l0[i * n + j] = 1.0;
+                    u0[i * n + j] = *rng.pick(&[-4.0, -2.0, -1.0, 1.0, 2.0, 4.0]);
+                } else if i > j {
+                    l0[i * n + j] = *rng.pick(&[-1.0, 1.0, 0.0, -1.0, 1.0, 0.5, -0.5]);
+                } else {
+                    u0[i * n + j] = if rng.chance(1, 3) { 0.0 } else { rng.range(-3, 3) as f64 };
+                }
+            }
+        }
+        if k % 6 == 5 {
+            let z = if rng.chance(1, 2) { n - 1 } else { rng.below(n as u64) as usize };
+            u0[z * n + z] = 0.0;
+        }
+        if k % 7 == 3 {
+            // last pivot exactly EPSILON, or one ulp off
+            u0[n * n - 1] = f64::EPSILON * *rng.pick(&[1.0, 1.0 + f64::EPSILON, 1.0 - f64::EPSILON / 2.0, -1.0]);
+        }
+        let mut v = matmul(n, &l0, &u0);
+        if k % 2 == 1 {
+            shuffle_rows(rng, n, &mut v);
+        }
+        if k % 5 == 1 {
+            let t = rng.below((n * n) as u64) as usize;
+            let d = *rng.pick(&[f64::EPSILON, -f64::EPSILON / 2.0, p2(-50), -p2(-40), p2(-40), p2(-30), -p2(-45)]);
+            v[t] = if v[t] == 0.0 { d } else { v[t] * (1.0 + d) };
+        }
+        if k % 5 == 3 {
+            let s = p2(rng.range(-40, 40));
+            for x in v.iter_mut() {
+                *x *= s;
+            }
+        }
+        both(emit, kind_for(&v, k), n, &v);
     }
 }
